@@ -181,7 +181,11 @@ func epText(toks []*sx.Node, seed int64) string {
 }
 
 func runExprParse(c *sx.Node) *sx.Node {
-	src := "title: T\n---\n<<set $v to " + epText(c.L[1].L, c.L[2].Int()) + ">>\n===\n"
+	text := epText(c.L[1].L, c.L[2].Int())
+	if strings.HasSuffix(text, ">") {
+		text += " " // a final '>' must not run into the closing ">>" (">>>" is the end of the command and a text)
+	}
+	src := "title: T\n---\n<<set $v to " + text + ">>\n===\n"
 	dump, err := ysgo.VerifDumpDialogue(strings.NewReader(src))
 	if err != nil {
 		return sx.Tag("reject")
